@@ -8,6 +8,10 @@
 //! values:   V  = f<bits> | m<l|t><idx>_<in0 f64>_<in1 f64>_<out0>_<out1>   (Value::FromModulator on the idx-th
 //!                live LFO / tweener handle, linear mapping; an empty table gives Fixed(out0)); out bits are f32
 //!                for Decibels / Panning / Mix and f64 for f64 / PlaybackRate;   durations: f<ns>
+//!           V may also be d<in0 f64>_<in1 f64>_<out0>_<out1> = Value::FromListenerDistance (linear mapping): it follows the
+//!                distance between the innermost enclosing spatial track and its listener, and holds its value elsewhere
+//!           P (Value<Vector3>) / Q (Value<Quaternion>) = the same three forms with f32 `x,y,z` / `x,y,z,w` as the fixed
+//!                value and as the mapping outputs: f<x>,<y>,<z> | m<l|t><idx>_<in0>_<in1>_<x,y,z>_<x,y,z> | d<in0>_<in1>_<..>_<..>
 //!           start = imm | del:<ns> | clk:<clock idx>:<ticks>:<fraction f64>   (empty clock table: immediate)
 //!           tween = <start>;<duration ns>;<easing>
 //! effects:  filter:<mode 0..3>:<cutoff V64>:<resonance V64>:<mix V32> | eq:<kind 0..2>:<freq V64>:<gain V32>:<q V64>
@@ -18,6 +22,11 @@
 //! ops:      mgr <ibs> <sr> <main volume V32> <fx list>
 //!           send <volume V32> <fx list>
 //!           track <parent track idx | -1> <volume V32> <persist 0|1> <sends: - | <send idx>=<V32>,…> <fx list>
+//!           listener <position P> <orientation Q>     lis.pos <idx> <P> <tween>     lis.ori <idx> <Q> <tween>
+//!           strack <parent track idx | -1> <listener: l<idx> live table | g<idx> ids of dropped listeners; the other table
+//!                  when the named one is empty, `skip` when both are> <position P> <min f32> <max f32> <attenuation: none | easing>
+//!                  <strength V32> <volume V32> <persist 0|1> <sends> <fx list>          (a spatial sub-track; the track table
+//!                  holds plain and spatial handles alike: play / track / strack / trk / drop address either kind)
 //!           clock <spt|tps|tpm>=<f64>     clock.cmd <idx> start|pause|stop     clock.speed <idx> <speed> <tween>
 //!           lfo <sin|tri|saw|pul:<w>> <freq V64> <amp V64> <offset V64> <phase f64>
 //!           lfo.set <idx> freq|amp|off <V64> <tween>    lfo.wave <idx> <wave>    lfo.phase <idx> <f64>
@@ -27,9 +36,10 @@
 //!           snd <idx> pause|resume|stop <tween>  |  snd <idx> resume_at <start> <tween>
 //!           snd.seek <idx> to|by <f64>   snd.set <idx> vol|rate|pan <V> <tween>   snd.loop <idx> <region|none>
 //!           trk <idx> vol <V32> <tween> | pause <tween> | resume <tween> | resume_at <start> <tween> | send <send idx> <V32> <tween>
+//!           trk <idx> pos <P> <tween> | str <V32> <tween>      (SpatialTrackHandle only: `nop` on a plain track)
 //!           main.vol <V32> <tween>   send.vol <idx> <V32> <tween>
 //!           fx.set <idx> <param> <V> <tween>   fx.mode <idx> <k>
-//!           drop track|send|clock|lfo|tweener|sound|fx <idx>
+//!           drop track|send|clock|lfo|tweener|sound|fx|listener <idx>
 //!           rate <sr>          (device sample-rate change)
 //!           cb <frames> <channels>   → every device sample (bits; a hash + head + tail above 192 samples), then
 //!                                      manager counts, every sound handle's state@position, every track handle's
@@ -55,7 +65,11 @@ use kira::modulator::lfo::{LfoBuilder, LfoHandle, Waveform};
 use kira::modulator::tweener::{TweenerBuilder, TweenerHandle};
 use kira::modulator::ModulatorId;
 use kira::sound::static_sound::{StaticSoundData, StaticSoundHandle, StaticSoundSettings};
-use kira::track::{MainTrackBuilder, SendTrackBuilder, SendTrackHandle, TrackBuilder, TrackHandle};
+use kira::listener::{ListenerHandle, ListenerId};
+use kira::track::{
+	MainTrackBuilder, SendTrackBuilder, SendTrackHandle, SendTrackId, SpatialTrackBuilder, SpatialTrackHandle, TrackBuilder,
+	TrackHandle, TrackPlaybackState,
+};
 use kira::{
 	AudioManager, Capacities, Decibels, Easing, Mapping, Mix, Panning, PlaybackRate, StartTime, Tween, Value,
 };
@@ -91,9 +105,68 @@ impl FxH {
 	}
 }
 
+/// a handle of the track table: plain and spatial sub-tracks live in one table
+enum TrkH {
+	Plain(TrackHandle),
+	Spatial(SpatialTrackHandle),
+}
+
+macro_rules! both {
+	($s:expr, $h:ident => $e:expr) => {
+		match $s {
+			TrkH::Plain($h) => $e,
+			TrkH::Spatial($h) => $e,
+		}
+	};
+}
+
+impl TrkH {
+	fn state(&self) -> TrackPlaybackState {
+		both!(self, h => h.state())
+	}
+	fn num_sounds(&self) -> usize {
+		both!(self, h => h.num_sounds())
+	}
+	fn num_sub_tracks(&self) -> usize {
+		both!(self, h => h.num_sub_tracks())
+	}
+	fn play(&mut self, d: StaticSoundData) -> Result<StaticSoundHandle, ()> {
+		both!(self, h => h.play(d).map_err(|_| ()))
+	}
+	fn add_sub_track(&mut self, b: TrackBuilder) -> Result<TrackHandle, ()> {
+		both!(self, h => h.add_sub_track(b).map_err(|_| ()))
+	}
+	fn add_spatial_sub_track(
+		&mut self,
+		l: ListenerId,
+		p: Value<mint::Vector3<f32>>,
+		b: SpatialTrackBuilder,
+	) -> Result<SpatialTrackHandle, ()> {
+		both!(self, h => h.add_spatial_sub_track(l, p, b).map_err(|_| ()))
+	}
+	fn set_volume(&mut self, v: Value<Decibels>, tw: Tween) {
+		both!(self, h => h.set_volume(v, tw))
+	}
+	fn set_send(&mut self, to: SendTrackId, v: Value<Decibels>, tw: Tween) -> Result<(), ()> {
+		both!(self, h => h.set_send(to, v, tw).map_err(|_| ()))
+	}
+	fn pause(&mut self, tw: Tween) {
+		both!(self, h => h.pause(tw))
+	}
+	fn resume(&mut self, tw: Tween) {
+		both!(self, h => h.resume(tw))
+	}
+	fn resume_at(&mut self, st: StartTime, tw: Tween) {
+		both!(self, h => h.resume_at(st, tw))
+	}
+}
+
 struct Scene {
 	mgr: AudioManager<ProbeBackend>,
-	tracks: Vec<TrackHandle>,
+	tracks: Vec<TrkH>,
+	listeners: Vec<ListenerHandle>,
+	/// ids of dropped listeners (a spatial track may still name one: it is silent)
+	ghosts: Vec<ListenerId>,
 	sends: Vec<SendTrackHandle>,
 	clocks: Vec<ClockHandle>,
 	lfos: Vec<LfoHandle>,
@@ -133,6 +206,14 @@ impl Tables<'_> {
 		if let Some(r) = s.strip_prefix('f') {
 			return Value::Fixed(conv(r));
 		}
+		if let Some(r) = s.strip_prefix('d') {
+			let p: Vec<&str> = r.split('_').collect();
+			return Value::FromListenerDistance(Mapping {
+				input_range: (p64(p[0]), p64(p[1])),
+				output_range: (conv(p[2]), conv(p[3])),
+				easing: Easing::Linear,
+			});
+		}
 		let kind = s[1..].chars().next().expect("bad value");
 		let p: Vec<&str> = s[2..].split('_').collect();
 		let (o0, o1) = (conv(p[3]), conv(p[4]));
@@ -158,6 +239,18 @@ impl Tables<'_> {
 	}
 	fn rate(&self, s: &str) -> Value<PlaybackRate> {
 		self.val(s, |x| PlaybackRate(p64(x)))
+	}
+	fn vec3(&self, s: &str) -> Value<mint::Vector3<f32>> {
+		self.val(s, |x| {
+			let c: Vec<f32> = x.split(',').map(p32).collect();
+			mint::Vector3 { x: c[0], y: c[1], z: c[2] }
+		})
+	}
+	fn quat(&self, s: &str) -> Value<mint::Quaternion<f32>> {
+		self.val(s, |x| {
+			let c: Vec<f32> = x.split(',').map(p32).collect();
+			mint::Quaternion { v: mint::Vector3 { x: c[0], y: c[1], z: c[2] }, s: c[3] }
+		})
 	}
 	fn dur(&self, s: &str) -> Value<Duration> {
 		Value::Fixed(Duration::from_nanos(pu(s.strip_prefix('f').expect("bad duration"))))
@@ -234,6 +327,11 @@ impl FxHost for MainTrackBuilder {
 	}
 }
 impl FxHost for TrackBuilder {
+	fn add<B: EffectBuilder>(&mut self, b: B) -> B::Handle {
+		self.add_effect(b)
+	}
+}
+impl FxHost for SpatialTrackBuilder {
 	fn add<B: EffectBuilder>(&mut self, b: B) -> B::Handle {
 		self.add_effect(b)
 	}
@@ -422,13 +520,13 @@ fn new_scene(tok: &[&str]) -> Scene {
 		send_track_capacity: CAP,
 		clock_capacity: CAP,
 		modulator_capacity: CAP,
-		listener_capacity: 1,
+		listener_capacity: CAP,
 	};
 	let none = Tables { clocks: &[], lfos: &[], tweeners: &[] };
 	let mut mb = MainTrackBuilder::new().volume(none.db(tok[3])).sound_capacity(CAP);
 	let fxs = add_fx_list(&mut mb, tok[4], &none);
 	let mgr = probe::manager(caps, pu(tok[1]) as usize, pu(tok[2]) as u32, mb);
-	Scene { mgr, tracks: vec![], sends: vec![], clocks: vec![], lfos: vec![], tweeners: vec![], sounds: vec![], fxs }
+	Scene { mgr, tracks: vec![], listeners: vec![], ghosts: vec![], sends: vec![], clocks: vec![], lfos: vec![], tweeners: vec![], sounds: vec![], fxs }
 }
 
 fn exec(sc: &mut Option<Scene>, l: &str, out: &mut Out, collect: &mut Vec<f32>) {
@@ -470,11 +568,83 @@ fn exec(sc: &mut Option<Scene>, l: &str, out: &mut Out, collect: &mut Vec<f32>) 
 			let parent = if pi(tok[1]) >= 0 { idx(tok[1], s.tracks.len()) } else { None };
 			let r = match parent {
 				Some(p) => s.tracks[p].add_sub_track(b),
-				None => s.mgr.add_sub_track(b),
+				None => s.mgr.add_sub_track(b).map_err(|_| ()),
 			};
 			match r {
 				Ok(h) => {
-					s.tracks.push(h);
+					s.tracks.push(TrkH::Plain(h));
+					s.fxs.extend(hs);
+					let cnt = match parent {
+						Some(p) => s.tracks[p].num_sub_tracks(),
+						None => s.mgr.num_sub_tracks(),
+					};
+					out.put(format!("ok {}", cnt))
+				}
+				Err(_) => out.put("limit"),
+			}
+		}
+		"listener" => {
+			let (p, q) = (s.tables().vec3(tok[1]), s.tables().quat(tok[2]));
+			match s.mgr.add_listener(p, q) {
+				Ok(h) => {
+					s.listeners.push(h);
+					out.put("ok")
+				}
+				Err(_) => out.put("limit"),
+			}
+		}
+		"lis.pos" => match idx(tok[1], s.listeners.len()) {
+			Some(i) => {
+				let (p, tw) = (s.tables().vec3(tok[2]), s.tables().tween(tok[3]));
+				s.listeners[i].set_position(p, tw);
+				out.put("ok")
+			}
+			None => out.put("skip"),
+		},
+		"lis.ori" => match idx(tok[1], s.listeners.len()) {
+			Some(i) => {
+				let (q, tw) = (s.tables().quat(tok[2]), s.tables().tween(tok[3]));
+				s.listeners[i].set_orientation(q, tw);
+				out.put("ok")
+			}
+			None => out.put("skip"),
+		},
+		"strack" => {
+			// the listener: the live table (`l`) or the ids of dropped listeners (`g`), the other one when empty
+			let live = |s: &Scene, k: &str| idx(k, s.listeners.len()).map(|i| s.listeners[i].id());
+			let ghost = |s: &Scene, k: &str| idx(k, s.ghosts.len()).map(|i| s.ghosts[i]);
+			let k = &tok[2][1..];
+			let lid = if tok[2].starts_with('l') { live(s, k).or(ghost(s, k)) } else { ghost(s, k).or(live(s, k)) };
+			let Some(lid) = lid else {
+				out.put("skip");
+				return;
+			};
+			let mut b = SpatialTrackBuilder::new()
+				.distances((p32(tok[4]), p32(tok[5])))
+				.attenuation_function(if tok[6] == "none" { None } else { Some(parse_easing(tok[6])) })
+				.spatialization_strength(s.tables().val(tok[7], p32))
+				.volume(s.tables().db(tok[8]))
+				.persist_until_sounds_finish(tok[9] == "1")
+				.sound_capacity(CAP)
+				.sub_track_capacity(CAP);
+			if tok[10] != "-" {
+				for item in tok[10].split(',') {
+					let (k, v) = item.split_once('=').expect("bad send");
+					if let Some(i) = idx(k, s.sends.len()) {
+						b = b.with_send(s.sends[i].id(), s.tables().db(v));
+					}
+				}
+			}
+			let hs = add_fx_list(&mut b, tok[11], &s.tables());
+			let pos = s.tables().vec3(tok[3]);
+			let parent = if pi(tok[1]) >= 0 { idx(tok[1], s.tracks.len()) } else { None };
+			let r = match parent {
+				Some(p) => s.tracks[p].add_spatial_sub_track(lid, pos, b),
+				None => s.mgr.add_spatial_sub_track(lid, pos, b).map_err(|_| ()),
+			};
+			match r {
+				Ok(h) => {
+					s.tracks.push(TrkH::Spatial(h));
 					s.fxs.extend(hs);
 					let cnt = match parent {
 						Some(p) => s.tracks[p].num_sub_tracks(),
@@ -590,7 +760,7 @@ fn exec(sc: &mut Option<Scene>, l: &str, out: &mut Out, collect: &mut Vec<f32>) 
 			};
 			let target = if pi(tok[1]) >= 0 { idx(tok[1], s.tracks.len()) } else { None };
 			let r = match target {
-				Some(i) => s.tracks[i].play(data).map_err(|_| ()),
+				Some(i) => s.tracks[i].play(data),
 				None => s.mgr.play(data).map_err(|_| ()),
 			};
 			match r {
@@ -694,6 +864,26 @@ fn exec(sc: &mut Option<Scene>, l: &str, out: &mut Out, collect: &mut Vec<f32>) 
 						s.tracks[i].resume_at(st, tw);
 						out.put("ok")
 					}
+					"pos" => {
+						let (p, tw) = (t.vec3(tok[3]), t.tween(tok[4]));
+						match &mut s.tracks[i] {
+							TrkH::Spatial(h) => {
+								h.set_position(p, tw);
+								out.put("ok")
+							}
+							TrkH::Plain(_) => out.put("nop"),
+						}
+					}
+					"str" => {
+						let (v, tw) = (t.val(tok[3], p32), t.tween(tok[4]));
+						match &mut s.tracks[i] {
+							TrkH::Spatial(h) => {
+								h.set_spatialization_strength(v, tw);
+								out.put("ok")
+							}
+							TrkH::Plain(_) => out.put("nop"),
+						}
+					}
 					_ => match idx(tok[3], s.sends.len()) {
 						Some(k) => {
 							let (v, tw) = (t.db(tok[4]), t.tween(tok[5]));
@@ -789,6 +979,15 @@ fn exec(sc: &mut Option<Scene>, l: &str, out: &mut Out, collect: &mut Vec<f32>) 
 				"lfo" => drop_from!(s.lfos),
 				"tweener" => drop_from!(s.tweeners),
 				"sound" => drop_from!(s.sounds),
+				"listener" => match idx(tok[2], s.listeners.len()) {
+					Some(i) => {
+						let h = s.listeners.remove(i);
+						s.ghosts.push(h.id());
+						drop(h);
+						out.put("ok")
+					}
+					None => out.put("skip"),
+				},
 				_ => drop_from!(s.fxs),
 			}
 		}
@@ -926,9 +1125,26 @@ struct G {
 	fxs: u64,
 	/// allow modulator-linked values
 	mods: bool,
+	listeners: u64,
+	ghosts: u64,
+	/// spatial tracks made so far (listener-distance values are drawn once there is one)
+	spatial: u64,
+}
+
+/// a `Value::FromListenerDistance` descriptor with the given (already formatted) outputs
+fn dist_value(rng: &mut Rng, a: String, b: String) -> String {
+	let (i0, i1) = rng.pick(&[(0.0, 10.0), (1.0, 100.0), (10.0, 0.0), (0.0, 1.0), (2.0, 50.0), (0.0, 4.0)]);
+	format!("d{}_{}_{}_{}", o64(i0), o64(i1), a, b)
+}
+fn dist_on(rng: &mut Rng, g: &G) -> bool {
+	g.spatial > 0 && rng.chance(1, 6)
 }
 
 fn v32(rng: &mut Rng, g: &G, pool: &[f32]) -> String {
+	if dist_on(rng, g) {
+		let (a, b) = (o32(rng.pick(pool)), o32(rng.pick(pool)));
+		return dist_value(rng, a, b);
+	}
 	if g.mods && g.lfos + g.tweeners > 0 && rng.chance(1, 5) {
 		let a = rng.pick(pool);
 		let b = rng.pick(pool);
@@ -939,6 +1155,10 @@ fn v32(rng: &mut Rng, g: &G, pool: &[f32]) -> String {
 	}
 }
 fn v64(rng: &mut Rng, g: &G, pool: &[f64]) -> String {
+	if dist_on(rng, g) {
+		let (a, b) = (o64(rng.pick(pool)), o64(rng.pick(pool)));
+		return dist_value(rng, a, b);
+	}
 	if g.mods && g.lfos + g.tweeners > 0 && rng.chance(1, 5) {
 		let a = rng.pick(pool);
 		let b = rng.pick(pool);
@@ -955,6 +1175,123 @@ const MIXES: &[f32] = &[0.0, 1.0, 0.5, 0.25, 1.0, -0.5, 1.5];
 
 fn gen_db(rng: &mut Rng, g: &G) -> String {
 	v32(rng, g, DBS)
+}
+
+// ---- spatial scenes: vectors, quaternions, listeners, spatial tracks
+
+fn fmt_vec(v: &[f32]) -> String {
+	v.iter().map(|x| o32(*x)).collect::<Vec<_>>().join(",")
+}
+
+fn gen_vec3_raw(rng: &mut Rng) -> String {
+	const POOL: &[[f32; 3]] = &[
+		[0.0, 0.0, 0.0],
+		[0.0, 0.0, 0.0],
+		[1.0, 0.0, 0.0],
+		[-1.0, 0.0, 0.0],
+		[0.0, 0.0, -1.0],
+		[-3.0, 0.0, 4.0],
+		[0.0, 2.0, -10.0],
+		[50.0, 2.0, -30.0],
+		[0.05, 0.0, 0.02],
+		[0.0225, 0.0, 0.02195],
+		[0.1, 0.0, 0.0],
+		[100.0, 0.0, 0.0],
+		[0.0, 0.0, 5.0],
+		[1000.0, -1000.0, 1000.0],
+	];
+	if rng.chance(1, 3) {
+		let r = |rng: &mut Rng| (rng.uniform(-12.0, 12.0)) as f32;
+		fmt_vec(&[r(rng), r(rng) * 0.25, r(rng)])
+	} else {
+		fmt_vec(&rng.pick(POOL))
+	}
+}
+
+fn gen_quat_raw(rng: &mut Rng) -> String {
+	const H: f32 = std::f32::consts::FRAC_1_SQRT_2;
+	const POOL: &[[f32; 4]] = &[
+		[0.0, 0.0, 0.0, 1.0],
+		[0.0, 0.0, 0.0, 1.0],
+		[0.0, H, 0.0, H],
+		[0.0, -H, 0.0, H],
+		[0.0, 1.0, 0.0, 0.0],
+		[H, 0.0, 0.0, H],
+		[0.0, 0.0, 0.0, -1.0],
+		[0.0, 0.0, 0.0, 0.0],
+		[0.0, 0.0, 0.0, 2.0],
+		[0.5, 0.5, 0.5, 0.5],
+		[1e-30, 0.0, 0.0, 1e-30],
+	];
+	if rng.chance(1, 3) {
+		let r = |rng: &mut Rng| rng.uniform(-1.0, 1.0) as f32;
+		let (x, y, z, w) = (r(rng), r(rng), r(rng), r(rng));
+		let n = (x * x + y * y + z * z + w * w).sqrt();
+		if n > 1e-3 && rng.chance(3, 4) {
+			fmt_vec(&[x / n, y / n, z / n, w / n])
+		} else {
+			fmt_vec(&[x, y, z, w])
+		}
+	} else {
+		fmt_vec(&rng.pick(POOL))
+	}
+}
+
+/// a `Value<Vector3>` / `Value<Quaternion>` descriptor: mostly fixed, sometimes linked to a modulator or the listener distance
+fn gen_vq(rng: &mut Rng, g: &G, raw: fn(&mut Rng) -> String) -> String {
+	if dist_on(rng, g) {
+		let (a, b) = (raw(rng), raw(rng));
+		return dist_value(rng, a, b);
+	}
+	if g.mods && g.lfos + g.tweeners > 0 && rng.chance(1, 6) {
+		let (i0, i1) = rng.pick(&[(-1.0, 1.0), (0.0, 1.0), (1.0, -1.0)]);
+		return format!("m{}{}_{}_{}_{}_{}", rng.pick(&['l', 't']), rng.below(3), o64(i0), o64(i1), raw(rng), raw(rng));
+	}
+	format!("f{}", raw(rng))
+}
+fn gen_p(rng: &mut Rng, g: &G) -> String {
+	gen_vq(rng, g, gen_vec3_raw)
+}
+fn gen_q(rng: &mut Rng, g: &G) -> String {
+	gen_vq(rng, g, gen_quat_raw)
+}
+
+const DISTANCES: &[(f32, f32)] =
+	&[(1.0, 100.0), (1.0, 100.0), (1.0, 10.0), (0.0, 5.0), (5.0, 5.0), (10.0, 1.0), (0.0, 0.0), (0.5, 50.0), (-1.0, 3.0), (3.0, 3.5)];
+const STRENGTHS: &[f32] = &[0.75, 0.75, 0.0, 1.0, 0.5, 1.5, -0.5, 0.25];
+
+fn gen_listener_ref(rng: &mut Rng, g: &G) -> String {
+	if g.ghosts > 0 && rng.chance(1, 6) {
+		format!("g{}", rng.below(3))
+	} else {
+		format!("l{}", rng.below(3))
+	}
+}
+
+fn gen_strack(rng: &mut Rng, g: &mut G, parent: i64, lref: String) -> String {
+	let (mn, mx) = rng.pick(DISTANCES);
+	let att = if rng.chance(1, 4) { "none".to_string() } else { fmt_easing(&gen_easing(rng)) };
+	let sends = match rng.below(5) {
+		0 if g.sends > 0 => format!("{}={}", rng.below(3), gen_db(rng, g)),
+		_ => "-".to_string(),
+	};
+	let line = format!(
+		"strack {} {} {} {} {} {} {} {} {} {} {}",
+		parent,
+		lref,
+		gen_p(rng, g),
+		o32(mn),
+		o32(mx),
+		att,
+		v32(rng, g, STRENGTHS),
+		gen_db(rng, g),
+		rng.below(2),
+		sends,
+		gen_fx_list(rng, g)
+	);
+	g.tracks += 1;
+	g.spatial += 1;
+	line
 }
 
 fn gen_cs_fixed(rng: &mut Rng) -> String {
@@ -1154,7 +1491,100 @@ fn gen_case(rng: &mut Rng, thorough: bool, stats: &mut Stats, out: &mut Vec<Stri
 			if rng.chance(2, 3) { "n=0~end" } else { "none" }
 		));
 	}
+	let spatial_on = std::env::var("KV_SYSCORE_NOSPATIAL").is_err();
+	if spatial_on && rng.chance(1, 2) {
+		// an audible spatial bed: a listener, a spatial track bound to it, a looping sound on the track
+		out.push(format!("listener {} {}", gen_p(rng, &g), gen_q(rng, &g)));
+		g.listeners += 1;
+		let st = gen_strack(rng, &mut g, -1, "l0".into());
+		out.push(st);
+		out.push(format!(
+			"play {} {} {} 48000 f{} f{} f{} n=0~end 0 n=0 - imm",
+			g.tracks - 1,
+			rng.pick(&["idx", "lr", "dc=3e800000", "rnd=77"]),
+			rng.pick(&[64u64, 1000, 4000]),
+			o32(rng.pick(&[0.0f32, -6.0])),
+			o64(1.0),
+			o32(rng.pick(&[0.0f32, 0.0, -1.0, 0.5]))
+		));
+		g.sounds += 1;
+		stats.hit("spatial_bed");
+	}
 	for _ in 0..steps {
+		if spatial_on && rng.chance(1, 25) {
+			// nesting: an outer spatial track (its own effect / send / a plain child may follow ITS listener distance), an
+			// inner spatial track bound to another listener (own info wins), sounds on the inner track and on the plain
+			// child; then the outer listener moves and the inner listener is dropped
+			out.push(format!("listener {} {}", gen_p(rng, &g), gen_q(rng, &g)));
+			out.push(format!("listener {} {}", gen_p(rng, &g), gen_q(rng, &g)));
+			g.listeners += 2;
+			let (la, lb) = (g.listeners - 2, g.listeners - 1);
+			let outer = gen_strack(rng, &mut g, -1, format!("l{}", la));
+			out.push(outer);
+			let o = g.tracks as i64 - 1;
+			let inner = gen_strack(rng, &mut g, o, format!("l{}", lb));
+			out.push(inner);
+			let i = g.tracks - 1;
+			out.push(format!("track {} {} 0 - {}", o, gen_db(rng, &g), gen_fx_list(rng, &mut g)));
+			g.tracks += 1;
+			let c = g.tracks - 1;
+			for t in [i, c] {
+				out.push(format!(
+					"play {} {} 4000 48000 {} f{} {} n=0~end 0 n=0 - imm",
+					t,
+					rng.pick(&["idx", "lr", "dc=3e800000"]),
+					gen_db(rng, &g),
+					o64(rng.pick(&[1.0, 1.0, 0.5])),
+					v32(rng, &g, PANS)
+				));
+				g.sounds += 1;
+			}
+			out.push(gen_cb(rng, &g));
+			out.push(format!("lis.pos {} {} {}", la, gen_p(rng, &g), gen_tween(rng, &g)));
+			out.push(format!("trk {} pos {} {}", rng.pick(&[o as u64, i]), gen_p(rng, &g), gen_tween(rng, &g)));
+			for _ in 0..rng.range(1, 3) {
+				out.push(gen_cb(rng, &g));
+			}
+			out.push(format!("drop listener {}", lb));
+			g.listeners -= 1;
+			g.ghosts += 1;
+			for _ in 0..rng.range(2, 3) {
+				out.push(gen_cb(rng, &g));
+			}
+			stats.hit("burst_nested_spatial");
+		}
+		if spatial_on && clocks_on && rng.chance(1, 30) {
+			// clock → listener → spatial track: a listener (and the emitter) jump at a clock time; the listeners are
+			// updated after the clocks of the same chunk, so the jump is heard in the chunk in which the tick is reached
+			out.push(format!("clock tps={}", o64(rng.pick(&[1000.0, 200.0, 4000.0]))));
+			g.clocks += 1;
+			let c = g.clocks - 1;
+			out.push(format!("clock.cmd {} start", c));
+			out.push(format!("listener f{} f{}", gen_vec3_raw(rng), gen_quat_raw(rng)));
+			g.listeners += 1;
+			let l = g.listeners - 1;
+			let st = gen_strack(rng, &mut g, -1, format!("l{}", l));
+			out.push(st);
+			let t = g.tracks - 1;
+			out.push(format!(
+				"play {} {} 4000 48000 f{} f{} f{} n=0~end 0 n=0 - imm",
+				t,
+				rng.pick(&["idx", "lr", "dc=3e800000"]),
+				o32(0.0),
+				o64(1.0),
+				o32(0.0)
+			));
+			g.sounds += 1;
+			out.push(gen_cb(rng, &g));
+			let dur = |rng: &mut Rng| rng.pick(&[0u64, 0, 1_000_000, 5_000_000]);
+			out.push(format!("lis.pos {} f{} clk:{}:{}:{};{};lin", l, gen_vec3_raw(rng), c, rng.range(1, 30), o64(0.0), dur(rng)));
+			out.push(format!("lis.ori {} f{} clk:{}:{}:{};{};lin", l, gen_quat_raw(rng), c, rng.range(1, 30), o64(0.5), dur(rng)));
+			out.push(format!("trk {} pos f{} clk:{}:{}:{};{};lin", t, gen_vec3_raw(rng), c, rng.range(1, 30), o64(0.0), dur(rng)));
+			for _ in 0..rng.range(3, 6) {
+				out.push(gen_cb(rng, &g));
+			}
+			stats.hit("burst_listener_clock");
+		}
 		if rate_on && fx_kinds() >= 5 && rng.chance(1, 40) {
 			// a track or send with a rate-dependent effect (delay / reverb) that is still in the new-resource ring
 			// when the device rate changes, then heard
@@ -1269,7 +1699,7 @@ fn gen_case(rng: &mut Rng, thorough: bool, stats: &mut Stats, out: &mut Vec<Stri
 			}
 			stats.hit("burst_chain");
 		}
-		let line = match rng.below(48) {
+		let line = match rng.below(if spatial_on { 58 } else { 48 }) {
 			0 | 1 => {
 				g.sends += 1;
 				format!("send {} {}", gen_db(rng, &g), gen_fx_list(rng, &mut g))
@@ -1406,6 +1836,34 @@ fn gen_case(rng: &mut Rng, thorough: bool, stats: &mut Stats, out: &mut Vec<Stri
 				format!("drop {} {}", kind, rng.below(4))
 			}
 			34 | 35 if rate_on => format!("rate {}", rng.pick(RATES)),
+			48 => {
+				g.listeners += 1;
+				format!("listener {} {}", gen_p(rng, &g), gen_q(rng, &g))
+			}
+			49 | 50 if g.listeners + g.ghosts > 0 => {
+				let lref = gen_listener_ref(rng, &g);
+				let parent = rng.range(-1, 3);
+				gen_strack(rng, &mut g, parent, lref)
+			}
+			51 | 52 if g.listeners > 0 => {
+				if rng.chance(1, 2) {
+					format!("lis.pos {} {} {}", rng.below(3), gen_p(rng, &g), gen_tween(rng, &g))
+				} else {
+					format!("lis.ori {} {} {}", rng.below(3), gen_q(rng, &g), gen_tween(rng, &g))
+				}
+			}
+			53 | 54 if g.spatial > 0 => {
+				if rng.chance(2, 3) {
+					format!("trk {} pos {} {}", rng.below(4), gen_p(rng, &g), gen_tween(rng, &g))
+				} else {
+					format!("trk {} str {} {}", rng.below(4), v32(rng, &g, STRENGTHS), gen_tween(rng, &g))
+				}
+			}
+			55 if g.listeners > 0 => {
+				g.listeners -= 1;
+				g.ghosts += 1;
+				format!("drop listener {}", rng.below(3))
+			}
 			_ => gen_cb(rng, &g),
 		};
 		stats.hit(line.split(' ').next().unwrap());
